@@ -126,6 +126,12 @@ func UntarDirectory(r io.Reader, destDir string) error {
 			return err
 		}
 
+		// The lexical checks above cannot see symlinks that already exist in destDir
+		// or that an earlier entry created: never extract through a symlink.
+		if err := rejectSymlinkTraversal(destDir, targetPath, false); err != nil {
+			return err
+		}
+
 		switch header.Typeflag {
 		case tar.TypeDir:
 			// Create directory
@@ -137,6 +143,11 @@ func UntarDirectory(r io.Reader, destDir string) error {
 			// Create parent directories if needed
 			if err := os.MkdirAll(filepath.Dir(targetPath), 0755); err != nil {
 				return fmt.Errorf("failed to create parent directory: %w", err)
+			}
+
+			// Replace (rather than write through) an existing symlink or hard link
+			if fi, err := os.Lstat(targetPath); err == nil && !fi.IsDir() {
+				os.Remove(targetPath)
 			}
 
 			// Create file
@@ -175,6 +186,9 @@ func UntarDirectory(r io.Reader, destDir string) error {
 			// Hard links - validate target is within destDir
 			linkTarget, err := sanitizeTarPath(destDir, header.Linkname)
 			if err != nil {
+				return err
+			}
+			if err := rejectSymlinkTraversal(destDir, linkTarget, true); err != nil {
 				return err
 			}
 
@@ -234,6 +248,32 @@ func sanitizeTarPath(destDir, name string) (string, error) {
 	}
 
 	return targetPath, nil
+}
+
+// rejectSymlinkTraversal returns an error if any existing path component between destDir
+// and targetPath (the final component only when includeLast is set) is a symbolic link.
+// Components that do not exist yet are created later as real directories.
+func rejectSymlinkTraversal(destDir, targetPath string, includeLast bool) error {
+	rel, err := filepath.Rel(destDir, targetPath)
+	if err != nil {
+		return fmt.Errorf("failed to resolve path: %w", err)
+	}
+	parts := strings.Split(rel, string(filepath.Separator))
+	if !includeLast {
+		parts = parts[:len(parts)-1]
+	}
+	cur := destDir
+	for _, part := range parts {
+		cur = filepath.Join(cur, part)
+		fi, err := os.Lstat(cur)
+		if err != nil {
+			return nil
+		}
+		if fi.Mode()&os.ModeSymlink != 0 {
+			return fmt.Errorf("tar entry traverses symlink: %s", cur)
+		}
+	}
+	return nil
 }
 
 // validateSymlink checks if a symlink target is safe (doesn't escape the destination).
